@@ -14,7 +14,8 @@
 EXTENDS PickFirst, TraceIO
 VARIABLES l
 vars == <<b, l>>
-Fam7 == <<4, 6, 4, 0, 6, 0, 4>>
+\* address 8 has the Addr string of address 1 and different Attributes: a different address
+Fam8 == <<4, 6, 4, 0, 6, 0, 4, 4>>
 Init == PInit /\ l = 1 /\ InitRegs
 Ev == Trace[l]
 Obs == Ev.obs
@@ -38,6 +39,8 @@ Upds == SelectSeq(Obs.calls, IsUpd)
 QuirkInput == Ev.ev = "sc" /\ Ev.s = "CONNECTING" /\ b.sticky /\ b.firstPass /\ IsActive(b, Ev.sc) /\ b.eff[Ev.sc] # "TF"
 CheckObs ==
   LET ended == b.firstPass /\ ~b'.firstPass IN
+  \* once a sub-connection is READY (and selected) no other sub-connection is created or connected
+  /\ Mark((\E sc \in Active(b') : b'.raw[sc] = "READY") /\ ConnPart(Obs.calls) # <<>>, "I_OthersShutdown_NoConnectAfterReady", l)
   \* I_Order: within a pass the connection requests are the specification's (processed-list order, one per address).
   \* The step that ends the pass requests no connection inside the pass (it only re-connects idle sub-connections
   \* after reporting TRANSIENT_FAILURE, which the property does not fix).
@@ -67,8 +70,11 @@ Step ==
     [] Ev.ev = "reserr"   -> b' = DoResolverError(Clr(b)) /\ CheckObs
     [] Ev.ev = "exitidle" -> b' = DoExitIdle(Clr(b)) /\ CheckObs
     [] Ev.ev = "timer"    -> b' = DoTimer(Clr(b)) /\ CheckObs
+    [] Ev.ev = "stale"    -> b' = DoStale(Clr(b)) /\ CheckObs
+    \* READY delivered while the callback of the timer it cancels is already waiting for the mutex
+    [] Ev.ev = "scstale" /\ Ev.sc <= Len(b.addr) -> b' = DoStale(DoScState(Clr(b), Ev.sc, Ev.s)) /\ CheckObs
     \* a sub-connection the specification never created can only follow a step already marked I_Order
-    [] Ev.ev \in {"sc", "health"} /\ Ev.sc > Len(b.addr) -> b' = b /\ Drift(TRUE, "unknown_subconn", l)
+    [] Ev.ev \in {"sc", "health", "scstale"} /\ Ev.sc > Len(b.addr) -> b' = b /\ Drift(TRUE, "unknown_subconn", l)
     [] Ev.ev = "sc"       -> b' = DoScState(Clr(b), Ev.sc, Ev.s) /\ CheckObs
     [] Ev.ev = "health"   -> b' = DoHealth(Clr(b), Ev.sc, Ev.s) /\ CheckObs
     [] Ev.ev = "skip"     -> b' = b
